@@ -897,4 +897,19 @@ def run(P, ctx):
     clause9(P, res, hs)
     clause10(P, res, hs)
     clause11(P, res)
+    # a pending send learns that the last receiver left: the send-side instances of C06-6, judged for the disconnect protocol
+    from rules import c06
+    sub = Result("C04")
+    c06.clause6(P, sub)
+    res.rule("C04-12", "a send that waits finds out that the receiving side is gone: behind each lock-free waker registration of a *send* future every path to Pending re-reads "
+                       "the channel state and looks at receiver liveness in between — the closer wakes only waiters that are already registered, so a receiver that leaves "
+                       "just before the registration is noticed only by this look (otherwise the send stays Pending forever instead of failing with Closed) — the send-side "
+                       "instances of C06-6")
+    k = 0
+    for i in sub.instances:
+        if re.search(r"Send\w*Future", i.key):
+            k += 1
+            res.add("C04-12", i.key.split(":", 2)[2], i.status, i.detail, i.witness, i.nontrivial, i.obligations, i.where)
+    if k < 3:
+        res.violated("C04-12", "send-future-sites", f"expected >= 3 send futures with a lock-free waker registration, found {k}")
     return res
